@@ -69,3 +69,79 @@ package act
 //@   trusted
 //@ func validateChildSpec
 //@   trusted
+
+// ---------------------------------------------------------------------------------------------
+// C19: pool dispatch. fwd(m) counts the successful Forward calls of mailbox message m (ghost); the
+// worker ring is a queue of pids whose length qlen changes only through Push/Pop.
+//@ ghostheap fwd(m *gen.MailboxMessage) int
+//@ ghostheap qlen(q lib.QueueMPSC) int64
+//@ ghostheap spawnFail() int64
+
+//@ iface gen.Process.Forward
+//@   modifies fwd(message)
+//@   ensures fwd(message) == old(fwd(message)) + (result == nil ? 1 : 0)
+//@ iface gen.Process.Spawn
+//@   modifies spawnFail()
+//@   ensures spawnFail() == old(spawnFail()) + (result.1 != nil ? 1 : 0)
+//@ iface gen.Process.Log
+//@ iface gen.Log.Error
+//@ iface lib.QueueMPSC.Len
+//@   ensures result == qlen(self) && result >= 0
+// emptyFlag(q): the most recent Pop of q found it empty (ghost; any callback invalidates it)
+//@ ghostheap emptyFlag(q lib.QueueMPSC) bool
+//@ iface lib.QueueMPSC.Pop
+//@   modifies qlen(self), emptyFlag(self)
+//@   ensures result.1 == (old(qlen(self)) > 0) && qlen(self) == old(qlen(self)) - (result.1 ? 1 : 0) && emptyFlag(self) == !result.1
+//@ iface lib.QueueMPSC.Push
+//@   modifies qlen(self)
+//@   ensures qlen(self) == old(qlen(self)) + 1
+
+//@ func (p *Pool) forward
+//@   props C19
+//@   mode int
+//@   requires [ring] message != nil && p.pool != nil && qlen(p.pool) < 4611686018427387904 && p.forwarded < 9223372036854775807 && p.restarts < 9223372036854775807 && p.unhandled < 9223372036854775807
+//@   loop 1 invariant [not_yet_delivered] fwd(message) == old(fwd(message)) && p.unhandled == old(p.unhandled) && 0 <= i && i <= l && l == old(qlen(p.pool))
+//@   loop 1 invariant [ring_kept] qlen(p.pool) == old(qlen(p.pool)) - (spawnFail() - old(spawnFail())) && spawnFail() >= old(spawnFail()) && spawnFail() - old(spawnFail()) <= i
+//@   at call Forward assert [same_message_normal_priority] message == old(message) && priority == gen.MessagePriorityNormal
+//@   ensures [at_most_one_worker] fwd(message) <= old(fwd(message)) + 1
+//@   ensures [dropped_is_counted] fwd(message) == old(fwd(message)) ==> p.unhandled == old(p.unhandled) + 1 || p.restarts == old(p.restarts) + 1
+//@   ensures [delivered_is_not_counted_dropped] fwd(message) == old(fwd(message)) + 1 ==> p.unhandled == old(p.unhandled)
+//@   ensures [ring_size] qlen(p.pool) == old(qlen(p.pool)) - (spawnFail() - old(spawnFail()))
+
+// C03: dequeue discipline of the behaviour run loops: a queue of a lower class is popped only when,
+// since the last callback, every queue of a higher class has been seen empty (Urgent > System >
+// Main > Log). Callbacks are unknown code: they invalidate every emptyFlag.
+//@ spec func mboxDistinct(m gen.ProcessMailbox) bool = m.Main != nil && m.System != nil && m.Urgent != nil && m.Log != nil && m.Main != m.System && m.Main != m.Urgent && m.System != m.Urgent && m.Log != m.Main && m.Log != m.System && m.Log != m.Urgent
+// user callbacks do not touch framework internals (A-USER); while they run, any queue may be filled
+//@ iface ActorBehavior.HandleCall
+//@   modifies emptyFlag
+//@ iface ActorBehavior.HandleCallAlias
+//@   modifies emptyFlag
+//@ iface ActorBehavior.HandleCallName
+//@   modifies emptyFlag
+//@ iface ActorBehavior.HandleEvent
+//@   modifies emptyFlag
+//@ iface ActorBehavior.HandleInspect
+//@   modifies emptyFlag
+//@ iface ActorBehavior.HandleLog
+//@   modifies emptyFlag
+//@ iface ActorBehavior.HandleMessage
+//@   modifies emptyFlag
+//@ iface ActorBehavior.HandleMessageAlias
+//@   modifies emptyFlag
+//@ iface ActorBehavior.HandleMessageName
+//@   modifies emptyFlag
+//@ iface gen.Process.Parent
+//@ iface gen.Process.State
+//@ iface gen.Process.SendResponse
+//@   modifies emptyFlag
+//@ func gen.ReleaseMailboxMessage
+//@   trusted
+//@ func (a *Actor) ProcessRun
+//@   props C03
+//@   mode int
+//@   no_safety
+//@   requires [mailbox] mboxDistinct(a.mailbox)
+//@   loop 1 invariant [mailbox1] mboxDistinct(a.mailbox)
+//@   loop 2 invariant [mailbox2] mboxDistinct(a.mailbox)
+//@   at call Pop assert [strict_priority] (self == a.mailbox.System ==> emptyFlag(a.mailbox.Urgent)) && (self == a.mailbox.Main ==> emptyFlag(a.mailbox.Urgent) && emptyFlag(a.mailbox.System)) && (self == a.mailbox.Log ==> emptyFlag(a.mailbox.Urgent) && emptyFlag(a.mailbox.System) && emptyFlag(a.mailbox.Main))
